@@ -1,7 +1,7 @@
 (* C17 — the publication step (applyAssignment / assignmentNeedsUpdate): what
    holds of the published NodeShards for all histories, and what does not. *)
 From Coq Require Import ZArith List Bool QArith Lia.
-From V Require Import C17.Model C17.Laws C17.Lemmas C17.LawLemmas.
+From V Require Import C17.Model C17.Laws C17.Lemmas C17.LawLemmas C17.ConfigLemmas.
 Import ListNotations.
 Open Scope Z_scope.
 
@@ -139,4 +139,50 @@ Theorem published_disjoint_eligible_refuted :
 Proof.
   eexists _, _, (map Pos.of_nat (seq 1 20)), [1; 22]%positive.
   vm_compute. repeat split; auto 30.
+Qed.
+
+(* ------------------------------------------------------------------ *)
+(* the worker's fallback (calculateAndApplyAssignment after 3dd3dc2)    *)
+(* ------------------------------------------------------------------ *)
+
+Lemma fallback_loop_spec nodes cfgs : forall st s l,
+  NoDup (map fst cfgs) -> fallback_loop nodes cfgs (st_assigned st) s = Some l ->
+  rlookup (st_results (fold_left (calc_step nname false nodes) cfgs st)) s = l.
+Proof.
+  induction cfgs as [|c r IH]; intros st s l Hnd H; [discriminate|].
+  simpl in Hnd. inversion Hnd as [|? ? Hc Hnd']; subst. simpl in H. simpl fold_left.
+  destruct (fst c =? s) eqn:E.
+  - apply Z.eqb_eq in E. injection H as <-.
+    destruct (calc_results_app nname nodes r (calc_step nname false nodes st c)) as [new [H1 H2]].
+    rewrite H1, rlookup_app_notin by (rewrite H2, <- in_rev; now rewrite <- E).
+    unfold calc_step. cbn [st_results rlookup]. now rewrite E, Z.eqb_refl.
+  - apply (IH (calc_step nname false nodes st c)); assumption.
+Qed.
+
+Lemma fallback_loop_some nodes cfgs : forall assigned s,
+  In s (map fst cfgs) -> exists l, fallback_loop nodes cfgs assigned s = Some l.
+Proof.
+  induction cfgs as [|c r IH]; intros assigned s Hin; [destruct Hin|]. simpl.
+  destruct (fst c =? s) eqn:E; [eexists; reflexivity|].
+  destruct Hin as [H | H]; [apply Z.eqb_neq in E; contradiction | now apply IH].
+Qed.
+
+(* for every scheduler the fallback computes exactly the scheduler's component of
+   the global calculation on the same (listed) nodes and metrics — nothing else
+   enters: not the NodeShard lister's content, not the order in which keys are processed *)
+Theorem fallback_eq_global specs mg nodes m s :
+  new_manager specs = Some mg -> In s (map ss_name specs) ->
+  fallback mg nodes m s = Some (rlookup (snd (reconcile mg (list_nodes nodes) m)) s).
+Proof.
+  intros Hmg Hs.
+  assert (Hnames : map fst mg = map ss_name specs /\ NoDup (map ss_name specs)).
+  { unfold new_manager in Hmg. destruct (valid_config specs) eqn:Ev; [|discriminate]. injection Hmg as <-.
+    split; [now rewrite map_map|]. apply (valid_config_facts specs Ev). }
+  destruct Hnames as [Hn Hnd]. unfold fallback.
+  assert (Hcn : map fst (mg_cfgs mg m) = map ss_name specs) by (unfold mg_cfgs; now rewrite map_map).
+  destruct (fallback_loop_some (list_nodes nodes) (mg_cfgs mg m) [] s) as [l Hl]; [now rewrite Hcn|].
+  rewrite Hl. f_equal. unfold reconcile. cbn [snd]. rewrite rlookup_final_map, calc_unbatched.
+  unfold calc_with. symmetry.
+  apply (fallback_loop_spec (list_nodes nodes) (mg_cfgs mg m) {| st_assigned := []; st_results := [] |} s l);
+    [now rewrite Hcn | exact Hl].
 Qed.
